@@ -3,6 +3,7 @@ package main
 import (
 	"fmt"
 	"go/token"
+	"go/types"
 	"sort"
 	"strings"
 
@@ -96,6 +97,8 @@ func checkC14(c *Ctx, r *Report) {
 		r.Unresolved("nfpm.WithDefaults", "not found")
 		return
 	}
+	checkParseOrder(c, r, wd)
+	checkParseWidth(c, r, pa)
 	// the split function: the module function reachable from WithDefaults that calls semver.NewVersion
 	var split *ssa.Function
 	for _, fn := range sortedFuncs(c, c.Reach(wd)) {
@@ -305,4 +308,141 @@ func checkSplitIndependence(c *Ctx, r *Report, split *ssa.Function, parse *ssa.C
 		r.Check(ok, rule, fmt.Sprintf("semver split: %s taken from the version string when only %s is configured", tc.empty, tc.set), c.pos(split.Pos()),
 			"with the parse successful, an unconfigured component must be filled from the version string on every path, independently of the other component; otherwise part of the version is silently lost")
 	}
+}
+
+// checkParseOrder (D8-order): the parser expands environment references
+// before it applies the defaults; the semver split runs inside the defaults,
+// so in the other order a version given as ${TAG} is split as the literal
+// reference, and an explicit but still unexpanded prerelease wins over the
+// one embedded in the version.
+func checkParseOrder(c *Ctx, r *Report, wd *ssa.Function) {
+	fam := map[*ssa.Function]bool{}
+	for _, f := range expansionFamily(c) {
+		fam[f] = true
+	}
+	n := 0
+	for _, fn := range c.ModFuncs {
+		if c.funcPkgPath(fn) != modPath {
+			continue
+		}
+		var exp, defs []*ssa.Call
+		forEachInstr(fn, func(in ssa.Instruction) {
+			call, ok := in.(*ssa.Call)
+			if !ok {
+				return
+			}
+			sc := call.Call.StaticCallee()
+			switch {
+			case sc == wd:
+				defs = append(defs, call)
+			case sc != nil && fam[sc] && !fam[fn]:
+				exp = append(exp, call)
+			}
+		})
+		if len(exp) == 0 {
+			continue
+		}
+		n++
+		ok := true
+		for _, d := range defs {
+			dominated := false
+			for _, e := range exp {
+				if instrDominates(e, d) {
+					dominated = true
+				}
+			}
+			if !dominated {
+				ok = false
+			}
+		}
+		r.Check(ok, "D8-order", "environment expansion precedes the defaults (and the semver split in them) in "+c.funcKey(fn), c.pos(fn.Pos()),
+			"every WithDefaults call in the function that expands the configuration must come after the expansion: version, prerelease and metadata are split from the expanded values")
+	}
+	r.Floor("D8-order", n, 1)
+}
+
+// checkParseWidth (F13-width): a component parsed as an integer is parsed
+// with a bit size that the type it is finally stored in can hold; a wider
+// parse followed by a narrowing conversion wraps silently (epoch 2^32+1
+// becomes 1 and sorts before epoch 2) where the parse would have failed.
+func checkParseWidth(c *Ctx, r *Report, pa *provAnalysis) {
+	n := 0
+	sizes := types.SizesFor("gc", "amd64")
+	for _, pk := range c.Packagers {
+		if pk.Format == "" {
+			continue
+		}
+		for _, fn := range sortedFuncs(c, c.Reach(pk.Package, pk.FileName)) {
+			if c.funcPkgPath(fn) != pk.PkgPath {
+				continue
+			}
+			perFn := 0
+			forEachInstr(fn, func(in ssa.Instruction) {
+				call, ok := in.(*ssa.Call)
+				if !ok {
+					return
+				}
+				o := calleeObj(call)
+				if o == nil || o.Pkg() == nil || o.Pkg().Path() != "strconv" || !(o.Name() == "ParseUint" || o.Name() == "ParseInt") || len(call.Call.Args) != 3 {
+					return
+				}
+				p := pa.Of(call.Call.Args[0])
+				if !p.has("Info.Epoch") && !p.has("Info.Release") {
+					return
+				}
+				k, ok := call.Call.Args[2].(*ssa.Const)
+				if !ok || k.Value == nil {
+					return
+				}
+				bits := k.Int64()
+				if bits == 0 {
+					bits = 64
+				}
+				n++
+				perFn++
+				var narrow *ssa.Convert
+				seen := map[ssa.Value]bool{}
+				var walk func(v ssa.Value, d int)
+				walk = func(v ssa.Value, d int) {
+					if v == nil || seen[v] || d > 8 || v.Referrers() == nil {
+						return
+					}
+					seen[v] = true
+					for _, ref := range *v.Referrers() {
+						switch x := ref.(type) {
+						case *ssa.Extract:
+							if x.Index == 0 {
+								walk(x, d+1)
+							}
+						case *ssa.Phi:
+							walk(x, d+1)
+						case *ssa.Store:
+							if al, ok := x.Addr.(*ssa.Alloc); ok && x.Val == v {
+								for _, r2 := range *al.Referrers() {
+									if ld, ok := r2.(*ssa.UnOp); ok && ld.Op == token.MUL {
+										walk(ld, d+1)
+									}
+								}
+							}
+						case *ssa.Convert:
+							if b, ok := x.Type().Underlying().(*types.Basic); ok && b.Info()&types.IsInteger != 0 {
+								if sizes.Sizeof(b)*8 < bits && narrow == nil {
+									narrow = x
+								}
+								walk(x, d+1)
+							}
+						}
+					}
+				}
+				walk(call, 0)
+				construct := fmt.Sprintf("%s: width of integer parse#%d in %s", pk.Format, perFn, c.funcKey(fn))
+				if narrow != nil {
+					r.Fail("F13-width", construct, c.instrPos(call), fmt.Sprintf("parsed with %d bits and then converted to %s at %s: a value beyond that type wraps silently instead of being rejected, so a higher epoch can sort before a lower one", bits, narrow.Type(), c.instrPos(narrow)))
+				} else {
+					r.Pass("F13-width", construct, c.instrPos(call), fmt.Sprintf("parsed with %d bits; no narrower conversion follows", bits))
+				}
+			})
+		}
+	}
+	r.Floor("F13-width", n, 2)
 }
